@@ -969,6 +969,38 @@ def run(chk):
     sw = [n for n in walk(ot["body"]) if n["k"] == "Call" and (n.get("fn") or "").endswith("swap")]
     chk.instance(r_st, "orderTRACK:swap", sample=dict(swaps=[show(n) for n in sw]))
 
+    # ---- C06.wpimultsel: which WPIMULT records are well-wide
+    r_ws = chk.rule("C06.wpimultsel", "handleWPIMULT treats a record as well-wide (factor applied to every connection, at the end of the step) only when ALL its selection items - I, J, K, FIRST, LAST: every item after WELL and WELLPI, up to the end of the record - are defaulted or negative; a record that gives any of them goes to Well::handleWPIMULT, which scales only the connections it selects.  The keyword definition is read to confirm that the selection items are exactly items 3..7", floor=2)
+    import json as _json
+    hx6 = chk.facts(["opm/input/eclipse/Schedule/Well/WellPropertiesKeywordHandlers.cpp"])
+    hw = [f for f in hx6.fns if f["n"] == "handleWPIMULT" and f.get("body") and f["file"].endswith("WellPropertiesKeywordHandlers.cpp")]
+    if len(hw) != 1:
+        raise core.AnalysisBroken("handleWPIMULT (keyword handler): %d definitions" % len(hw))
+    hw = hw[0]
+    kwp = os.path.join(chk.root if os.path.isdir(os.path.join(chk.root, "opm/input/eclipse/share/keywords")) else core.REPO, "opm/input/eclipse/share/keywords/000_Eclipse100/W/WPIMULT")
+    try:
+        names_ = [it_["name"] for it_ in _json.load(open(kwp))["items"]]
+    except Exception as e_:
+        raise core.AnalysisBroken("WPIMULT keyword definition unreadable: %s" % e_)
+    chk.instance(r_ws, "keyword", sample=dict(items=names_))
+    if names_ != ["WELL", "WELLPI", "I", "J", "K", "FIRST", "LAST"]:
+        chk.violation(r_ws, "keyword", "the WPIMULT definition has items %s; the handler's `begin() + 2 .. end()` range assumes WELL, WELLPI followed by the five selection items" % names_, hw["file"], hw["l"])
+    calls_ = [n for n in walk(hw["body"]) if n.get("k") == "Call" and (n.get("fn") or "").endswith("std::all_of")]
+    okr = False
+    det6 = [show(n)[:200] for n in calls_]
+    if len(calls_) == 1 and len(calls_[0]["a"]) == 3:
+        a0, a1, a2 = [strip(x) for x in calls_[0]["a"]]
+        m0 = re.fullmatch(r"\(?(\w+)\.begin\(\) \+ 2\)?", show(a0)) or re.fullmatch(r"operator\+\((\w+)\.begin\(\), 2\)", show(a0))
+        t1 = show(a1)
+        lam = a2 if a2.get("k") == "Lambda" else None
+        lb = [show(x) for x in stmt_list(lam["body"])] if lam is not None else []
+        pn6 = lam["params"][0]["n"] if lam is not None and lam.get("params") else "?"
+        okr = bool(m0) and t1 in ("%s.end()" % (m0.group(1) if m0 else "?"),) and lb in (["return (%s.defaultApplied(0) || (%s.get(0) < 0));" % (pn6, pn6)], ["return ((%s.get(0) < 0) || %s.defaultApplied(0));" % (pn6, pn6)])
+        det6 = dict(first=show(a0), last=t1, predicate=lb)
+    chk.instance(r_ws, "range", sample=dict(found=det6))
+    if not okr:
+        chk.violation(r_ws, "range", "handleWPIMULT decides 'well-wide' from %s; required: all_of(record.begin() + 2, record.end(), defaulted or negative) - with a shorter range a record that selects by completion numbers only is applied to every connection of the well" % det6, hw["file"], calls_[0]["l"] if calls_ else hw["l"])
+
     from verif import fallthrough
     fallthrough.run(chk, "C06", floor=16)
     from verif import argorder
